@@ -3,6 +3,8 @@ use crate::engine::Driver;
 
 pub mod c01;
 pub mod c03;
+pub mod c15;
+pub mod instr;
 pub mod c23;
 // pub mod c24_table;
 pub mod common;
@@ -11,7 +13,7 @@ pub mod edits;
 pub mod small;
 
 pub fn all_ids() -> Vec<&'static str> {
-    vec!["C01", "C02", "C03", "C06", "C07", "C08", "C09", "C10", "C11", "C12", "C13", "C14", "C23", "C28", "C29", "C30"]
+    vec!["C01", "C02", "C03", "C06", "C07", "C08", "C09", "C10", "C11", "C12", "C13", "C14", "C15", "C21", "C22", "C23", "C28", "C29", "C30"]
 }
 
 pub fn get(id: &str) -> Option<Box<dyn Driver>> {
@@ -28,6 +30,9 @@ pub fn get(id: &str) -> Option<Box<dyn Driver>> {
         "C12" => Box::new(small::BuiltFunctions),
         "C13" => Box::new(small::AddedTypes),
         "C14" => Box::new(small::AddedLocals),
+        "C15" => Box::new(c15::PlainLowering),
+        "C21" => Box::new(c15::BlockAlt),
+        "C22" => Box::new(c15::SpecialNotLost),
         "C23" => Box::new(c23::SideEffects),
         "C28" => Box::new(small::CustomSections),
         "C29" => Box::new(edits::c29()),
